@@ -147,7 +147,7 @@ class Cmp(object):
                 if (a.flags, a.width, a.prec) != (b.flags, b.width, b.prec):
                     self.diff(where, "field format differs: found %s expect %s" % (a.spec(), b.spec()))
             if not self.val_eq(a.value, b.value):
-                if "unknown" in repr(getattr(a.value, "key", lambda: "")()) or type(a.value).__name__ == "Unknown":
+                if "'accum:" in repr(getattr(a.value, "key", lambda: "")()):
                     # the evaluator lost track of this value (a loop-carried variable it could not put in closed form):
                     # it cannot be compared, which is the analysis' limit and not a difference of the program
                     from .model import AnalysisError
